@@ -22,4 +22,20 @@ var properties = []Property{
 		},
 		Floors: map[string]int64{"iterations_checked": 1000, "table_rows_checked": 32, "values_seen": 1000000},
 	},
+	{
+		ID: "C20", Title: "Receiver survives every sequence of read faults as specified",
+		Level: "fault_enumeration",
+		LevelText: "Runtime monitoring with fault enumeration: the real receiver loop is driven by a scripted reader through every outcome sequence up to length 4 (quick) / 5 (thorough) over {frame, frame+processor error, EAGAIN, timeout, ECONNRESET bare/wrapped, unknown, EOF, EBADF, closed file}, with cancellation injected at every read index of the shorter ones, plus long random sequences with error bursts larger than the 100-slot error buffer and a slow error consumer; a recording processor and the error stream are compared with a reference state machine.",
+		LevelNote: "trusted: the reference state machine in lab/pkg/packet/c20_test.go; the 5 ms back-off is not timed; one extra read after cancellation is tolerated; wrapped EBADF and os.ErrClosed are outside the stated alphabet",
+		Technique: "runtime monitoring: scripted fault injection at the Reader boundary + reference state machine over the recorded event log (race detector on)",
+		Rule: "enumeration of outcome sequences (terminal outcome only in last position), x cancellation at each read index, + seeded long random sequences; non-trivial = >=2 outcomes with at least one fault; distinct by (sequence, cancel index, consumer speed)",
+		Explanation: "exhaustive up to the length bound; longer sequences sampled",
+		Exhaustive: "all fault sequences up to length 4 (quick) / 5 (thorough); every cancellation index of sequences up to length 3 / 4",
+		Assumptions: commonAssumptions,
+		RaceDeciding: true,
+		Units: []Unit{
+			{Name: "faultseq", Kind: "lab", Pkg: "pkg/packet", Test: "TestVerifC20", BatchesQuick: 16, BatchesThorough: 16, TimeoutS: 900, TimeoutThoroughS: 3600, GoMaxProcs: []int{1, 2, 4, 16}},
+		},
+		Floors: map[string]int64{"reads": 20000, "frames_processed": 5000, "errors_reported": 5000, "cancellations": 1000},
+	},
 }
